@@ -3,7 +3,7 @@
 From PV Require Import Base.Bytes Model.Tag Model.Types Model.TableTypes Model.Enc Spec.X690 Gen.Tables
      Proofs.SpecOctets Proofs.TagsetShape Proofs.RoundTrip1 Proofs.DerReference
      Proofs.ReaderSound Proofs.ReaderModel Proofs.ReaderCer Proofs.ReaderBer Proofs.ReaderBerDeep
-     Proofs.DerReference2 Proofs.CerReferenceDeep.
+     Proofs.DerReference2 Proofs.CerReferenceDeep Proofs.CerComplete Proofs.CerCanonicalDeep.
 Local Open Scope N_scope.
 
 (* the reference's identifier octets (positional base-128 digits, X.690 8.1.2) are the octets the
@@ -139,3 +139,73 @@ Theorem C03_cer_is_reference_all : forall T v d k b,
   cer_all T v = true -> encode CER d k T v = Ok b -> X690.cer T v = Some b.
 Proof. exact cer_is_reference_all. Qed.
 Print Assumptions C03_cer_is_reference_all.
+
+(* ... and the other direction: wherever the reference assigns a canonical CER encoding (of a length that
+   definite length octets can express), the CER encoder - whatever options the caller passes - succeeds
+   with exactly these octets.  cer_exact_all = cer_all (outside F01/F24, as above) && all_extra (as for DER:
+   a REAL exponent of at most 255 octets, no UTCTime/GeneralizedTime text the encoder vets, DEFAULT
+   comparisons the model can make) *)
+Theorem C03_cer_is_reference_all_complete : forall T v d k b,
+  cer_exact_all T v = true -> X690.cer T v = Some b -> N.of_nat (length b) < DerReference.max_len ->
+  encode CER d k T v = Ok b.
+Proof. exact cer_is_reference_all_complete. Qed.
+Print Assumptions C03_cer_is_reference_all_complete.
+
+Theorem C03_cer_encoder_is_reference_all : forall T v d k b,
+  cer_exact_all T v = true -> N.of_nat (length b) < DerReference.max_len ->
+  (encode CER d k T v = Ok b <-> X690.cer T v = Some b).
+Proof. exact cer_encoder_is_reference_all. Qed.
+Print Assumptions C03_cer_encoder_is_reference_all.
+
+(* the encoder refuses only what the reference refuses (or what cannot be framed at all) *)
+Theorem C03_cer_refusal_is_reference_all : forall T v d k e,
+  cer_exact_all T v = true -> encode CER d k T v = Err e ->
+  X690.cer T v = None \/ exists b, X690.cer T v = Some b /\ DerReference.max_len <= N.of_nat (length b).
+Proof. exact cer_refusal_is_reference_all. Qed.
+Print Assumptions C03_cer_refusal_is_reference_all.
+
+Example C03_cer_complete_nonvacuous :
+  let T := TSet [(Req, TChoice [TOcts; TBool]); (Opt, TSetOf (TSeqOf TInt)); (Req, TExp (mkTag Ctx false 3) TAny)] in
+  let v := VRec [Some (VChoice 0 (VOcts [9])); Some (VList [VList [VInt 2]; VList []]); Some (VAny [5; 0])] in
+  let b := [49; 128; 4; 1; 9; 49; 128; 48; 128; 0; 0; 48; 128; 2; 1; 2; 0; 0; 0; 0; 163; 128; 5; 0; 0; 0; 0; 0] in
+  cer_exact_all T v = true /\ X690.cer T v = Some b /\ encode CER true 5 T v = Ok b.
+Proof. vm_compute. repeat split. Qed.
+
+(* both sides refuse an OBJECT IDENTIFIER 1.40 inside a SEQUENCE OF *)
+Example C03_cer_refusal_nonvacuous :
+  let T := TSeqOf TOid in let v := VList [VOid [1;2;3]; VOid [1;40;3]] in
+  cer_exact_all T v = true /\ encode CER true 0 T v = Err EMalformed /\ X690.cer T v = None.
+Proof. exact cer_refusal_witness. Qed.
+
+(* The canonical-form rules over containers, CHOICE and ANY (outside F01/F24): every CER encoder output
+   satisfies cer_canonical.  The check is untyped, hence shape_dom (computable, on the type): no UNIVERSAL
+   string tag number put by IMPLICIT tagging on a non-string, no member beginning with the octet 00 inside
+   an indefinite-length encoding; and anys_ok (on the value): the octets of every ANY, which are written as
+   they are, are themselves a canonical TLV not beginning with 00 (vacuous for types without ANY) *)
+Theorem C03_cer_output_canonical_all : forall T v d k b,
+  cer_all T v = true -> shape_dom T = true -> anys_ok T v ->
+  encode CER d k T v = Ok b -> cer_canonical b = true.
+Proof. exact cer_output_canonical_all. Qed.
+Print Assumptions C03_cer_output_canonical_all.
+
+Theorem C03_cer_output_canonical_any_free : forall T v d k b,
+  cer_all T v = true -> shape_dom T = true -> any_free T = true ->
+  encode CER d k T v = Ok b -> cer_canonical b = true.
+Proof. exact cer_output_canonical_any_free. Qed.
+Print Assumptions C03_cer_output_canonical_any_free.
+
+(* a SEQUENCE OF segmented strings under tags and a SET OF SEQUENCE; the universe witness with three ANYs *)
+Example C03_cer_output_canonical_nonvacuous :
+  let T := TSeq [(Req, TSeqOf (TImp (mkTag Ctx false 2) TOcts)); (Opt, TSetOf (TSeq [(Req, TInt); (Opt, TBits)]))] in
+  let v := VRec [Some (VList [VOcts (repeat 65 (25 * 100)%nat); VOcts []]);
+                 Some (VList [VRec [Some (VInt 2); None]; VRec [Some (VInt 1); Some (VBits [true])]])] in
+  cer_all T v = true /\ shape_dom T = true /\ any_free T = true /\
+  exists b, encode CER false 0 T v = Ok b /\ cer_canonical b = true.
+Proof. exact cer_output_canonical_any_free_witness. Qed.
+
+(* why anys_ok: an ANY holding a definite-length constructed TLV makes the output non-canonical *)
+Example C03_cer_canonical_needs_anys_ok :
+  let T := TSeq [(Req, TAny)] in let v := VRec [Some (VAny [48; 0])] in
+  cer_all T v = true /\ shape_dom T = true /\ cer_canonical [48; 0] = false /\
+  exists b, encode CER true 0 T v = Ok b /\ X690.cer T v = Some b /\ cer_canonical b = false.
+Proof. exact cer_canonical_needs_anys_ok. Qed.
